@@ -63,6 +63,7 @@ PROPS = {
         out="numeric meaning of strings beyond the corpus; arrays longer than 1 / nested; evaluation through apply",
     ),
     "EXP": dict(files=[("op", "exp_op.rs")]),
+    "EXD": dict(files=[("op::data", "exp_data.rs")]),
     "C03": dict(
         files=[("op", "c03_op.rs")],
         generators=[gen.gen_c03],
